@@ -378,6 +378,12 @@ Qed.
 Lemma store_reps s e : reps (store s e) = reps s.
 Proof. unfold store, reps. destruct (dtable s); [reflexivity|]. destruct (_ <=? _); reflexivity. Qed.
 
+Lemma cond_store_reps (c : bool) s e : reps (if c then store s e else s) = reps s.
+Proof. destruct c; [apply store_reps|reflexivity]. Qed.
+
+Lemma cond_store_okL (c : bool) s e : table_okL s -> good_entryL e -> table_okL (if c then store s e else s).
+Proof. intros Ht He. destruct c; [now apply store_okL|exact Ht]. Qed.
+
 Lemma mid_okL lfuel : forall fuel, rec_okL (mid basis aw lfuel fuel).
 Proof.
   induction fuel as [|f IH]; intros s g bphi bdelta cur s' cur' w E; cbn [mid] in E.
@@ -393,10 +399,10 @@ Proof.
       apply (mid_loop_okL _ g _ _ IH) in El. destruct El as [Hmono2 Hrest].
       pose proof (gen_children_reps _ _ _ _ _ _ _ Egen) as Hgenr.
       split.
-      { rewrite store_reps. destruct (d_phi cur2 =? 0); unfold reps in *; cbn in *; lia. }
+      { rewrite cond_store_reps. destruct (d_phi cur2 =? 0); unfold reps in *; cbn in *; lia. }
       intros Heq Ht Hg Hh Hok Hb1 Hb2.
       assert (Heq' : reps s2 = reps s1).
-      { rewrite store_reps in Heq. destruct (d_phi cur2 =? 0); unfold reps in *; cbn in *; lia. }
+      { rewrite cond_store_reps in Heq. destruct (d_phi cur2 =? 0); unfold reps in *; cbn in *; lia. }
       (* not beyond the thresholds: the entry is unsolved, so the position is live *)
       assert (Htm : term g = None).
       { destruct (term g) eqn:Et; [|reflexivity]. exfalso. destruct Hok as (_ & Hc & _ & Hs).
@@ -408,7 +414,7 @@ Proof.
       { destruct Hcov as [[_ Hc]|Hc]; [left|now right]. intros m q Hm Eq. apply (Hc m q Hm Eq). }
       destruct (Hrest Heq' Hg Htm Hb1 Hb2 Ht1 Hh Hcs Hcomp) as (Ht2 & Hh2 & Hok2).
       split; [|split; assumption].
-      apply store_okL; [|eapply good_of_okL; eauto].
+      apply cond_store_okL; [|eapply good_of_okL; eauto].
       destruct (d_phi cur2 =? 0); assumption.
 Qed.
 
